@@ -4,13 +4,13 @@ CONSTANTS
   Certs = {"x1", "x3", "p1"}
   ChainOf <- MCChainOf
   NoCache = FALSE
-  Cap = 2
-  MaxTree = 2
+  Cap = 1
+  MaxTree = 3
   MaxFaults = 1
   Depth = 0
   Dialect = "memory"
 INIT Init
-NEXT NextLean
+NEXT Next
 VIEW StateView
 CONSTRAINT PendingBound
 INVARIANTS CacheSound CacheBounded FaultClasses AckedServable CacheStandsForStored
